@@ -1626,11 +1626,11 @@ class NumpyModel:
             j = bisect.bisect_left(av, x) if side == "left" else bisect.bisect_right(av, x)
             # what the position says about the searched value: arr[j-1] < v <= arr[j] (side left)
             self.I.model_decisions.append(("searchsorted", lift(cell(v)), tuple(lift(c) for c in arr), j))
-            if self.I.is_variate(cell(v)):
-                if j > 0:
-                    self.I.model_bound(cell(v), "lo", arr[j - 1])
-                if j < len(av):
-                    self.I.model_bound(cell(v), "hi", arr[j])
+            # arr[j-1] < v <= arr[j]: bounds on the variate v is affine in
+            if j > 0:
+                self.I.variate_bound(lift(arr[j - 1]), lift(cell(v)), True)
+            if j < len(av):
+                self.I.variate_bound(lift(cell(v)), lift(arr[j]), True)
             out.append(j)
         if scalar:
             return out[0]
